@@ -73,6 +73,9 @@ def scenarios():
     for order, how, base in itertools.product(("earlier", "later"), ("attr", "ctor"), (False, True)):
         for typ in ("right", "wrong"):
             out.append(dict(group="comp", order=order, how=how, base=base, typ=typ))
+    # two components of the very same class; the constructor presets the requested attribute for one instance only
+    for which in ("first", "second", "both", "none"):
+        out.append(dict(group="sameclass", preset=which))
     # two requested attributes: each of {ok, absent, wrong}
     for a, b in itertools.product(("ok", "absent", "wrong"), repeat=2):
         out.append(dict(group="two", a=a, b=b))
@@ -141,6 +144,14 @@ def build_source(sc):
         else:
             src += "class R(magicbot.MagicRobot):\n" + decl[0] + decl[1] + "    def createObjects(self):\n        _reg['robot'] = self\n"
         return src, "c0", ""
+    if sc["group"] == "sameclass":
+        src += ("class K_c0:\n    dep: T\n    def __init__(self, fixed: bool):\n        if fixed:\n            self.dep = _mk('preset-' + str(len([k for k in _reg if k.startswith('preset')])), T())\n"
+                "    def setup(self):\n        _cb(self.logger.name + '.setup', self)\n    def execute(self):\n        pass\n")
+        p1 = sc["preset"] in ("first", "both")
+        p2 = sc["preset"] in ("second", "both")
+        src += ("class R(magicbot.MagicRobot):\n    c0: K_c0\n    c1: K_c0\n    def createObjects(self):\n        _reg['robot'] = self\n"
+                f"        self.dep = _mk('dep', T())\n        self.c0_fixed = {p1}\n        self.c1_fixed = {p2}\n")
+        return src, "c0", ""
     # two attributes
     src += "class K_c0:\n    a: T\n    b: T\n    def setup(self):\n        _cb('c0.setup', self)\n    def execute(self):\n        pass\n"
     create = "        _reg['robot'] = self\n"
@@ -182,6 +193,8 @@ def model(sc):
         if sc["how"] == "ctor" and sc["order"] == "later":
             return ("error",)  # a later-declared component does not exist yet when c0 is constructed
         return ("inject", "component:peer")
+    if sc["group"] == "sameclass":
+        return ("sameclass",)
     if sc["a"] == "ok" and sc["b"] == "ok":
         return ("inject2",)
     return ("error",)
@@ -212,6 +225,8 @@ def run_scenario(sc, res):
                 snaps.setdefault(site, getattr(tgt, name, MISSING) if tgt is not None else MISSING)
             elif sc["group"] == "comp":
                 snaps.setdefault(site, getattr(tgt, "got" if sc["how"] == "ctor" else "peer", MISSING))
+            elif sc["group"] == "sameclass":
+                snaps.setdefault(site, (getattr(getattr(rob, "c0", None), "dep", MISSING), getattr(getattr(rob, "c1", None), "dep", MISSING)))
             else:
                 snaps.setdefault(site, (getattr(tgt, "a", MISSING), getattr(tgt, "b", MISSING)))
 
@@ -253,7 +268,11 @@ def run_scenario(sc, res):
             if raised is not None:
                 res.violation(f"spurious-startup-error:{kindsig}", f"{desc}: raised {type(raised).__name__}: {raised}", rp)
             else:
-                if exp[0] == "inject2":
+                if exp[0] == "sameclass":
+                    pre = sorted(k for k in reg if k.startswith("preset"))
+                    it = iter(pre)
+                    want = tuple((reg[next(it)] if sc["preset"] in (w, "both") else reg.get("dep")) for w in ("first", "second"))
+                elif exp[0] == "inject2":
                     want = (reg.get("a"), reg.get("b"))
                 elif exp[0] == "untouched":
                     want = MISSING if exp[1] == MISSING else reg.get(exp[1])
@@ -264,7 +283,7 @@ def run_scenario(sc, res):
                 if not snaps:
                     res.violation(f"setup-not-run:{kindsig}", f"{desc}: no setup() observed", rp)
                 for site, got in snaps.items():
-                    same = (got is want) if not isinstance(want, tuple) or exp[0] != "inject2" else (got[0] is want[0] and got[1] is want[1])
+                    same = (got is want) if not isinstance(want, tuple) or exp[0] not in ("inject2", "sameclass") else (got[0] is want[0] and got[1] is want[1])
                     if not same:
                         what = "not-injected-before-setup" if got is MISSING or got == MISSING else ("wrong-object" if exp[0] != "untouched" else "value-overwritten")
                         res.violation(f"{what}:{kindsig}", f"{desc}: in {site} the attribute is {got!r}, expected {want!r} (role {exp[1:] })", rp)
